@@ -204,7 +204,7 @@ PROPS = {
                       "src/lib.rs closures over safina's pool and catch_unwind, the last needs the serialiser (assumed as ser(resp, close) here) "
                       "and the request reader (assumed, never writes). The bounded stand-in c04 (real server over loopback, 888 scripted "
                       "connections incl. panics, pipelining, drops, fetched bodies) covers them with a stated bound and is labelled bounded.",
-        "verus": ["conn"],
+        "verus": ["conn", "head"],
         "verus_thorough": [],
         "kani": [],
         "witness": ["c04"],
@@ -311,7 +311,7 @@ PROPS = {
         "technique": "Verus contracts on the real PrefixFileSet operations and PrefixFile's ordering (priority-queue view, invariant len == sum of "
                      "file lengths) and on the body of the writer thread's per-event loop, extracted as a loop-body region of "
                      "LogFileWriter::start_writer_thread and proved against a step contract over (buffer, current file, file set) using "
-                     "those operation contracts; LogFile::write_all / age on their real text",
+                     "those operation contracts; LogFile::write_all / age on their real text; the directory scan of PrefixFileSet::new as a loop-body region (unit logscan: one directory entry, std::fs entries and metadata as stand-ins with uninterpreted attributes) and its closing statement",
         "level_text": "Deductive proof for every file set, every current file, every event and every configuration in u64 (no bound): one "
                       "writer step appends the event's line exactly once and whole, after everything written before -- to the current file, "
                       "only if that keeps it within the per-file size and age, or else as the first line of a fresh file after the old one "
@@ -320,15 +320,18 @@ PROPS = {
                       "is a suffix of the pop order (oldest deleted first), the length bookkeeping of file and set is exact, the buffer is "
                       "empty again, and no arithmetic under- or overflows (the keep-size subtraction did: genuine defect, fixed). "
                       "PrefixFileSet: push, delete_oldest, delete_older_than, delete_oldest_while_over_max_len preserve len == sum of lengths, "
-                      "delete oldest first, reach total <= k / no file older than the cut-off, terminate; PrefixFile's Ord is reversed mtime.",
+                      "delete oldest first, reach total <= k / no file older than the cut-off, terminate; PrefixFile's Ord is reversed mtime. "
+                      "PrefixFileSet::new (unit logscan), for whatever the file system reports: a directory entry joins the set exactly when its path starts with the prefix byte-wise and it is a regular file, with the "
+                      "length and modification time reported for it; an unreadable entry or metadata is an error, never skipped; every other entry (other names, directories, links) leaves the set alone; the total the set "
+                      "starts with is the sum of the recorded lengths, so the representation invariant the later operations preserve holds from the start.",
         "level_note": "The step contract is an inductive invariant of the `for event in receiver` loop (its precondition is re-established by "
                       "its postcondition); the loop itself, the channel and the thread are not modelled. `.unwrap()` on the step's I/O calls "
                       "is taken as 'the thread ends on I/O failure' (rule R11): 'the writer keeps running' is proved only in the sense that "
                       "nothing but a failed I/O call can panic. Assumed: LogFile::create gives an empty file with len 0, File::write_all "
                       "appends, LogEvent::write_jsonl appends one non-empty line, one clock reading per step, std BinaryHeap as a priority "
                       "queue over PrefixFile's Ord, SystemTime / Duration ordering and subtraction, remove_file. Not covered: "
-                      "PrefixFileSet::new's directory scan (files of earlier runs), the start-up sequence before the loop, restarts.",
-        "verus": ["logset", "logwriter"],
+                      "the `for` header over read_dir in PrefixFileSet::new (that every entry is visited once is std's iterator), the path handling before the scan, restarts.",
+        "verus": ["logset", "logwriter", "logscan"],
         "verus_thorough": [],
         "kani": [],
         "witness": "c19",
@@ -341,11 +344,12 @@ PROPS = {
             "rule R11: `.unwrap()` of the step's I/O results is where the thread may end; states after it exist only for Ok",
             "sizes are below 2^64: set total + current file + line <= u64::MAX (precondition)",
             "format!(..) error texts are opaque (R5)",
+            "unit logscan: std::fs::DirEntry / Metadata as stand-ins whose path, kind, length and modification time are uninterpreted attributes; Metadata::modified is supported on the platform (the real code unwraps it); rule S1: the byte-wise starts_with on the two paths' encoded bytes -> path_has_byte_prefix, `files.iter().map(|f| f.len).sum()` -> heap_sum_len (the sum of the recorded lengths, assumed to fit 64 bits)",
         ],
         "not_covered": [
             "the thread, the channel (acceptance order = receive order), the loop header `for event in receiver`, sync_all at the end",
             "LogFile::create's body beyond its naming statement (create_new, the retry loop); of the start-up sequence of start_writer_thread the path handling and the directory scan (the statements after it are the region region_startup)",
-            "PrefixFileSet::new (directory scan with Path::starts_with; files of earlier runs); behaviour across restarts",
+            "of PrefixFileSet::new: path_prefix.parent(), read_dir and the loop header (the loop body and the closing statement are regions of unit logscan); behaviour across restarts",
             "panics caused by failing I/O (disk full): the writer thread ends",
         ],
     },
@@ -447,7 +451,8 @@ PROPS = {
         "technique": "Verus contracts on the real log_response and log_request_and_response (src/log/mod.rs) over an abstract logger (`log` as a "
                      "stand-in whose only effect is the uninterpreted fact was_logged(level, tags)), and on the real `log` (src/log/logger.rs) and error / info / debug "
                      "(unit logorder: the thread-local tags, the stable sort and the installed logger as rule-S1 / opaque stand-ins, the key closure on its real text); "
-                     "thread-local isolation and the installed logger only by a bounded stand-in that installs a capturing logger",
+                     "the installed-logger state machine (unit loginstall: set_global_logger, the release in ClearGlobalLoggerOnDrop::drop, global_logger's start of the stdout default, GlobalLoggerGuard::new / deref) as functions of the state the global mutex hands out (rule S1: the lock becomes a `&mut GlobalLoggerState` parameter / region argument); "
+                     "thread-local isolation and concurrency of the installed logger only by a bounded stand-in that installs a capturing logger",
         "level_text": "Deductive proof for every handler result: log_response returns the handler's own response for Ok, the error's response for an "
                       "Err that has one and the bare 500 otherwise; it hands the logger exactly the event [code, response_body_len when the length is "
                       "known] at info for a response and [the error's own tags, its message, (its backtrace,) code, response_body_len] at error for an "
@@ -456,7 +461,10 @@ PROPS = {
                       "level given and the tags ordered(given tags ++ the calling thread's tags), where ordered = the msg tags, then http_method, path, request_body_len, request_body, "
                       "response_body_len, then all others -- each kind in the order given (the key closure's table is proved equal to that ranking); on Err nothing is claimed but the error. "
                       "error / info / debug: the same with their level and the message tag in front of the tags given. Theorems: ordered(s) has as many tags as s and exactly the same ones "
-                      "(thm_all_tags_and_no_other); tags of one kind keep the order given (thm_order_given_is_kept); a leading msg tag stays first (thm_message_first).",
+                      "(thm_all_tags_and_no_other); tags of one kind keep the order given (thm_order_given_is_kept); a leading msg tag stays first (thm_message_first). "
+                      "Installed logger (unit loginstall, for every state None / Some / Default): set_global_logger refuses exactly while a logger is installed and then changes nothing, otherwise the sender given becomes the installed one (replacing a started default); "
+                      "the release asserts `is_some` -- proved never to fail from the state an install leaves -- and leaves none installed; global_logger starts the stdout default exactly when nothing is there and otherwise leaves the state as it is, never returning with none; "
+                      "the guard `log` sends through can only be built over a state that has a logger (type invariant) and hands out exactly that logger's sender (thm_installed_is_used, thm_release_after_use).",
         "level_note": "Partial claim. Not within the technique: that each call produces exactly one event *at the installed logger* under concurrent "
                       "install / clear, that tags of other threads never leak under real concurrency, the stdout default logger -- these need the "
                       "global mutex, the channel and thread_local! (no Verus model). Bounded only (stand-in c18, one thread plus one helper thread, "
@@ -465,7 +473,7 @@ PROPS = {
                       "tags, a stopped logger as Err. Assumed: Tag::new stores the name and the converted value (tv_of), "
                       "`e.response.unwrap_or_else(Response::internal_server_error_500)` as `the error's response or the bare 500` (rule S1; the "
                       "constructor is under a Kani harness in C20), ResponseBody::len (proved in unit respwrite).",
-        "verus": ["logwrap", "logorder"],
+        "verus": ["logwrap", "logorder", "loginstall"],
         "verus_thorough": [],
         "kani": [],
         "witness": "c18",
@@ -476,6 +484,7 @@ PROPS = {
             "unit logorder, rule S1: `tags.0.sort_by_key(KEY)` -> sort_tags_by_key(&mut tags.0, KEY) assumed to be a stable sort (for a key with the values 0..5, 99: the concatenation of the per-key subsequences in key order), with the precondition that KEY computes the ranking -- proved for the real closure; `with_thread_local_log_tags(|t| tags.0.extend_from_slice(t))` -> append_thread_tags (the thread's own tags are the uninterpreted thread_tags()); `tags.into()` / `msg.into()` -> abstract conversions (Into<TagList> for Vec<Tag> keeps the tags)",
             "unit logorder: two `&str` with the same characters are the same value (string-literal patterns are compared as values by Verus)",
             "unit logorder: global_logger().send(event) hands the event to the installed logger or fails (was_sent is uninterpreted)",
+            "unit loginstall, rule S1: `let mut mutex_guard = lock_global_logger();` -> a `&mut GlobalLoggerState` parameter (set_global_logger) / region argument (drop, global_logger); `MutexGuard<'static, GlobalLoggerState>` -> `Box<GlobalLoggerState>` in GlobalLoggerGuard: assumed that the mutex is exclusive and that every access to the global goes through it (poisoning is ignored by the real code); start_stdout_logger_thread only yields a sender",
         ],
         "not_covered": [
             "exactly-once delivery and routing under concurrent set_global_logger / drop, the default stdout logger",
@@ -507,11 +516,12 @@ PROPS = {
         "level_note": "The table inside ContentType::parse is only exercised by the bounded stand-in (cookies: unit cookiereq, C15); the split/trim/filter chain that "
                       "cuts the Transfer-Encoding value into items enters through a rule-S1 stand-in (te_list is uninterpreted: the contract is about the list of items, whatever the cutting; c03 compares the real chain); the regions are statements "
                       "copied verbatim into wrapper functions (the wrapper signature is the only added text).",
-        "verus": ["framing", "conn", "body", "request"],
+        "verus": ["framing", "conn", "body", "request", "ctype"],
         "verus_thorough": [],
         "kani": ["c03"],
         "witness": ["c03", "c05"],
         "assumptions": [
+            "unit ctype: ContentType::parse on its real text (rule S1: `s.split(';').next()` -> first_piece = the text before the first ';', assumed): a media type the library names gives its variant whatever parameters follow, anything else is kept as the whole text -- the table that framing / request use as the uninterpreted ct_parse",
             "as C14 for the HeaderList lookups (str::eq_ignore_ascii_case uninterpreted, AsRef)",
             "the let-regions are identified by the header-name literal they contain; a restructured read_http_request gives UNDECIDED and the bounded stand-in decides",
             "Kani harness: method drawn from a 10-string pool bracketing POST / PUT (prefixes, extensions, lower case)",
@@ -550,11 +560,12 @@ PROPS = {
                       "the statement converting a field value to ISO-8859-1 is replaced by a stand-in keyed to its exact tokens (rule S1). "
                       "The read-back theorems hold under the property's own hypotheses, stated as preconditions: a three-digit code, names non-empty and free of ':' CR LF, values free of CR LF, and "
                       "reason phrase / content-type text free of CR LF (their texts are uninterpreted here; the bounded stand-in c06 checks every code and type on the real tables).",
-        "verus": ["respwrite", "respguard", "copy", "chunked", "respparse", "errresp"],
+        "verus": ["respwrite", "respguard", "copy", "chunked", "respparse", "errresp", "ctype"],
         "verus_thorough": [],
         "kani": [],
         "witness": "c06",
-        "assumptions": ["as C14 for the HeaderList lookups", "as C07 / C09 for the I/O contracts",
+        "assumptions": [
+            "unit ctype: ContentType::as_str and reason_phrase on their real text (string-literal tables): no text the library supplies contains CR or LF (a hypothesis of thm_head_reads_back, now proved for the named types and every status code), a named type's text is its media type, alone or followed by `; charset=UTF-8`, and the text is empty exactly for a type whose media text is empty; respwrite still enters through ct_text / reason_text as functions of the argument","as C14 for the HeaderList lookups", "as C07 / C09 for the I/O contracts",
                         "assumed meaning of format!/write! with `{}` placeholders (rule R9): literal pieces and Display outputs concatenated in order; Display of u16/u64 is the decimal numeral, of &str / AsciiString the text",
                         "assumed: BodyAsyncReader delivers a prefix of body_events(body); in-memory bodies deliver their bytes then end of stream; streams shorter than 2^64-3 bytes",
                         "assumed: derive(PartialEq) on ContentType is structural equality; Vec::extend(b\"..\") == extend_from_slice (rule R10)",
@@ -607,7 +618,7 @@ PROPS = {
 # are listed in its evidence as notes (they are another property's alarm, or an unproved supporting contract).
 UNIT_OWNER = {
     "time": "C16", "chunked": "C07", "headers": "C14", "copy": "C09", "body": "C09", "conn": "C05", "head": "C01",
-    "parse": "C02", "logset": "C19", "logwriter": "C19", "jsonl": "C17", "cookie": "C15", "timefmt": "C16", "tryread": "C02", "logwrap": "C18", "cookiereq": "C15", "framing": "C03", "respguard": "C06", "respwrite": "C06", "errresp": "C20", "sse": "C11", "logorder": "C18", "respparse": "C06", "request": "C03",
+    "parse": "C02", "logset": "C19", "logwriter": "C19", "logscan": "C19", "jsonl": "C17", "cookie": "C15", "timefmt": "C16", "tryread": "C02", "logwrap": "C18", "ctype": "C06", "loginstall": "C18", "cookiereq": "C15", "framing": "C03", "respguard": "C06", "respwrite": "C06", "errresp": "C20", "sse": "C11", "logorder": "C18", "respparse": "C06", "request": "C03",
 }
 SCOPE = {
     # total request reading also needs the parsers to be panic-free
@@ -619,7 +630,9 @@ SCOPE = {
             "body": [r"^fn read_http_body_to_(vec|file) \|"]},
     "C06": {"copy": [r"^fn copy_async \|"], "chunked": [r"^fn copy_chunked_async \|"]},
     # one response per request on the wire, and the connection closed after a failed one: that is write_response's contract
-    "C04": {"conn": [r"^impl HttpConn / fn write_response \|"]},
+    # ... and every request sent is seen, once, whatever the delivery schedule: that is read_http_head's contract (its outcome is a
+    # function of the bytes, not of how they were cut into reads)
+    "C04": {"conn": [r"^impl HttpConn / fn write_response \|"], "head": [r"^fn read_http_head \|"]},
     # a failure mid-body leaves a prefix of the one serialisation: that is what the two copy loops promise for reader / writer errors
     "C08": {"chunked": [r"^fn copy_chunked_async \|"], "copy": [r"^fn copy_async \|"]},
     "C09": {"conn": [r"^fn (read_http_|copy_async)", r"^impl HttpConn / fn read_body_to_(vec|file) \|"], "copy": [r"."]},
